@@ -133,7 +133,28 @@ def bfs_subtrees():
 # ------------------------------------------------------------------ random histories
 def history_cases(max_ops, allow, **kw):
     return st.builds(lambda spec, ops: {'kind': 'history', 'mesh': spec, 'ops': ops},
-                     gens.mesh_specs(**kw), gens.histories(max_ops=max_ops, allow=allow))
+                     gens.mesh_specs(**kw), gens.histories(max_ops=max_ops, allow=allow, deep=True))
+
+
+def deep_family():
+    """deterministic deep local refinement: 24 successive bisections of one spot (levels a random history never
+    reaches), towards the seam from either side, an interior root line, the initial and the final time"""
+    out = []
+    specs = [{'kind': 'abstract', 'glue': True, 'xs': [0.0, 0.25, 0.5, 1.0], 'ts': [0.0, 1.0]},
+             {'kind': 'abstract', 'glue': True, 'xs': [0.0, 1.0], 'ts': [0.0, 0.4, 0.5, 2.0, 5.0]},
+             {'kind': 'abstract', 'glue': False, 'xs': [0.0, 1.0, 2.0], 'ts': [0.0, 1.0, 2.0]},
+             {'kind': 'param', 'curve': 'UnitSquare', 'ts': [0.0, 1.0], 'xs': None},
+             {'kind': 'param', 'curve': 'Circle', 'ts': [0.0, 1.0], 'xs': None}]
+    for spec in specs:
+        for sel in ('x0', 'xL', 'tT', 't0', 'corner'):
+            for kind in ('t', 'x'):
+                for which in (0, 1):
+                    ops = [[kind, [sel, 0]]] + [[kind, ['last%d' % which, 0]]] * 24
+                    out.append({'kind': 'history', 'mesh': spec, 'ops': ops})
+                # alternating axes
+                ops = [['t', [sel, 0]]] + [['x' if k % 2 == 0 else 't', ['last%d' % (k % 3 == 0), 0]] for k in range(24)]
+                out.append({'kind': 'history', 'mesh': spec, 'ops': ops})
+    return out
 
 
 def grade_guard(live, sigma, cap):
